@@ -347,10 +347,15 @@ impl TestRunner {
             0x20 => {
                 // jsr
                 let wait_until_pc = self.cpu.get_program_counter() + 3;
+                // (a subroutine that calls itself passes the same address in a deeper invocation: only the return that
+                // restores the stack pointer belongs to this call)
+                let stack_pointer = self.cpu.get_stack_pointer();
                 loop {
                     let result = self.execute_instruction()?;
 
-                    if self.cpu.get_program_counter() == wait_until_pc {
+                    if self.cpu.get_program_counter() == wait_until_pc
+                        && self.cpu.get_stack_pointer() == stack_pointer
+                    {
                         return Ok(result);
                     }
 
